@@ -183,8 +183,9 @@ Print Assumptions c02_cycle_detector_repaired.
 (** KNOWN FINDING (new, latent; class maporder:governance-blackquit-events): commitDpos runs blackQuit
     for every black-listed peer in map order, and blackQuit's ONT transfer (governance to itself, value
     InitPos) leaves one notification each: with two black-listed peers of different InitPos the event
-    list of the commitDpos transaction differs between nodes.  Not replayed by the driver (needs a
-    governance scenario: two peers black-listed in one round); established by reading + this model. *)
+    list of the commitDpos transaction differs between nodes.  Confirmed on the implementation by a
+    one-off experiment in C11's governance world (40 commitDpos runs from one pre-state: both orders
+    observed, state identical); not replayed by the C02 driver (needs that governance scenario). *)
 Theorem c02_commit_dpos_black_events_refuted :
   exists (black : N * N -> bool) (o1 o2 : list (N * N)), NoDup (map fst o1) /\ Permutation o1 o2 /\
     commit_dpos_black_events black o1 <> commit_dpos_black_events black o2.
